@@ -542,7 +542,34 @@ def check_cutoff(run, pkg, name, typed):
     ops = []
     decode(lst, ops)
     if ops[0][0] != "where":
-        run.ob("R-SELECTK", fq, "cutoff:pipeline", None, "selection starts from the particles satisfying the cutoff test", " -> ".join(o[0] for o in ops), loc=loc)
+        # another selection form (e.g. sort everything, then cut the sorted distances): the extracted list term is evaluated on
+        # small distance arrays that contain a particle at exactly the cutoff; a differing line is a definite violation
+        okp, det, wit = None, " -> ".join(o[0] for o in ops), None
+        if not typed:
+            try:
+                import numpy as np
+                from ..concrete import ev as cev
+                Ds = [x for x in walk(lst) if is_rowwise_norm(x) is not None]
+                D_ = max(Ds, key=lambda x: len(show(x))) if Ds else None
+                RC_ = ("sym", "r_cut")
+                if D_ is not None:
+                    for dist in ([0.0, 3.0, 1.0, 2.0, 5.0, 4.0], [2.5, 0.0, 1.5, 0.5, 3.5, 1.0], [4.0, 3.0, 2.0, 1.0, 0.0], [0.0, 1.0, 1.0, 1.0, 2.0]):
+                        for c in (1.0, 2.0, 3.5, 0.2):
+                            sel = [j for j in range(len(dist)) if dist[j] <= c]
+                            sel.sort(key=lambda j: dist[j])
+                            want_ = sorted(j + 1 for j in sel[1:])
+                            got = sorted(np.asarray(cev(lst, {D_: np.array(dist), RC_: c, ("attr", snap, "nparticle"): len(dist)})).tolist())
+                            if got != want_:
+                                okp = False
+                                wit = (f"distances from particle i {dist}, r_cut = {c}: the line lists ids {got}, the particles with d <= r_cut are {want_}"
+                                       + (" - a particle at exactly the cutoff is dropped (boundary must be inclusive)" if c in dist and len(got) < len(want_) else ""))
+                                break
+                        if okp is False:
+                            break
+                    det += " ; evaluated on 16 small distance arrays" + ("" if okp is False else " - no difference found (not a proof)")
+            except Exception as e_:  # noqa
+                det += f" ; not evaluable: {type(e_).__name__}"
+        run.ob("R-SELECTK", fq, "cutoff:pipeline", okp, "the listed particles are exactly those with d <= r_cut (boundary inclusive), the particle itself excluded", det, witness=wit, loc=loc, sound=True)
         return
     mask, rng = ops[0][1], ops[0][2]
     # mask: D <= rc  (normalised)
